@@ -936,7 +936,8 @@ package main
 // C13/C14: the hub loop. Every request taken from the `meta` queue ({get}/{set} by a session that is not attached) is
 // handed to a reply goroutine (the reply functions answer every request: their own contracts), and every
 // subscription request taken from `join` is either given to a topic-initialisation goroutine, forwarded to the
-// topic's registration queue, or answered on the spot.
+// topic's registration queue, or answered on the spot. (The queues are named as they were when the iteration began:
+// a spawned goroutine could, as far as the frame rules know, reassign the hub's fields.)
 //@ func (h *Hub) run()
 //@   requires h != nil
 //@   requires distinct_queues: h.join != h.meta && h.join != h.routeCli && h.meta != h.routeCli && h.join != nil && h.meta != nil
@@ -946,5 +947,38 @@ package main
 // kinds of sender are Session.del and a p2p topic that lost its last participant)
 //@   onrecv h.unreg as u: u != nil && ((u.pkt == nil) == (u.sess == nil)) && (u.pkt != nil ==> u.pkt.Del != nil)
 //@   loop 1
-//@     iterates [C13] meta_request_dispatched: taken(h.meta) > prev(taken(h.meta)) && lastTaken(h.meta) != nil && (lastTaken(h.meta).Get != nil || lastTaken(h.meta).Set != nil) ==> spawnedTotal() == prev(spawnedTotal()) + 1
-//@     iterates [C13,C14] join_request_handled: taken(h.join) > prev(taken(h.join)) ==> spawned("topicInit") == prev(spawned("topicInit")) + 1 || sentTotal() > prev(sentTotal()) || outTotal > prev(outTotal)
+//@     iterates [C13] meta_request_dispatched: taken(prev(h.meta)) > prev(taken(h.meta)) && lastTaken(prev(h.meta)) != nil && (lastTaken(prev(h.meta)).Get != nil || lastTaken(prev(h.meta)).Set != nil) ==> spawnedTotal() == prev(spawnedTotal()) + 1
+//@     iterates [C13] routed_request_forwarded_or_answered: taken(prev(h.routeCli)) > prev(taken(h.routeCli)) && lastTaken(prev(h.routeCli)) != nil && lastTaken(prev(h.routeCli)).Note == nil && lastTaken(prev(h.routeCli)).sess != nil ==> sentTotal() > prev(sentTotal()) || outTotal > prev(outTotal)
+//@     iterates [C13,C14] join_request_handled: taken(prev(h.join)) > prev(taken(h.join)) ==> spawned("topicInit") == prev(spawned("topicInit")) + 1 || sentTotal() > prev(sentTotal()) || outTotal > prev(outTotal)
+
+// C10: notices to subscribers who are not attached go only to those who hold the permissions the notice requires -
+// never to removed subscribers - and at most one per subscriber. Receipts ({info} read/recv/kp) need P and R together;
+// presence notices need what presOfflineFilter says ("acs" and "gone" pass regardless, "upd" needs J, the rest need P
+// and the caller's filter).
+//@ func presOfflineFilter(mode types.AccessMode, what string, pf *presFilters) (ok bool)
+//@   modifies nothing
+//@   ensures [C10] needs_permission: ok ==> what == "acs" || what == "gone" || (what == "upd" && (mode & types.ModeJoin) != 0) || (mode & types.ModePres) != 0
+//@ func (t *Topic) infoSubsOffline(from types.Uid, what string, seq int, skipSid string)
+//@   requires t != nil
+//@   requires [C10,assumed] hub_running: globals.hub != nil
+//@   modifies inferred
+//@   loop 1
+//@     iterates [C09,C10] receipts_need_P_and_R: sent(globals.hub.routeSrv) > prev(sent(globals.hub.routeSrv)) ==> !pud.deleted && ((pud.modeGiven & pud.modeWant) & types.ModePres) != 0 && ((pud.modeGiven & pud.modeWant) & types.ModeRead) != 0
+//@     iterates [C10] one_per_subscriber: sent(globals.hub.routeSrv) <= prev(sent(globals.hub.routeSrv)) + 1
+//@ func (t *Topic) presSubsOffline(what string, params *presParams, filterSource *presFilters, filterTarget *presFilters, skipSid string, offlineOnly bool)
+//@   requires t != nil && params != nil && filterTarget != nil
+//@   requires [C10,assumed] hub_running: globals.hub != nil
+//@   modifies inferred
+//@   loop 1
+//@     iterates [C10] presence_needs_permission: sent(globals.hub.routeSrv) > prev(sent(globals.hub.routeSrv)) ==> !pud.deleted && (what == "acs" || what == "gone" || (what == "upd" && ((pud.modeGiven & pud.modeWant) & types.ModeJoin) != 0) || ((pud.modeGiven & pud.modeWant) & types.ModePres) != 0)
+//@     iterates [C10] one_per_subscriber: sent(globals.hub.routeSrv) <= prev(sent(globals.hub.routeSrv)) + 1
+// An idle topic that unloads says so: a 'me' topic tells the user's contacts "off", a group tells its members "off" -
+// channel-enabled or not.
+//@ func (t *Topic) handleTopicTimeout(hub *Hub, currentUA string, uaTimer *time.Timer, defrNotifTimer *time.Timer)
+//@   requires t != nil && hub != nil && uaTimer != nil && defrNotifTimer != nil
+// (package-level values initialised once: `var nilPresParams = &presParams{}`, `var nilPresFilters = &presFilters{}`)
+//@   requires [C10,assumed] nilPresParams != nil && nilPresFilters != nil
+//@   modifies *
+//@   assert at call presSubsOffline [C10] group_goes_off: $1 == "off"
+//@   ensures [C10] unload_is_announced: old(t.cat == types.TopicCatGrp) ==> called("presSubsOffline") == old(called("presSubsOffline")) + 1
+//@   ensures [C10] me_unload_is_announced: old(t.cat == types.TopicCatMe) ==> called("presUsersOfInterest") == old(called("presUsersOfInterest")) + 1
